@@ -132,12 +132,14 @@ func cutDirectories(p, dirs string) (string, bool) {
 	return p, false
 }
 
+// A reference that was never resolved to a location (RefPath() == nil, e.g. "#" in a
+// document without extensions) cannot be named and is left alone by the add*ToSpec functions.
 func isExternalRef(ref string, parentIsExternal bool) bool {
 	return ref != "" && (!strings.HasPrefix(ref, "#/components/") || parentIsExternal)
 }
 
 func (doc *T) addSchemaToSpec(s *SchemaRef, refNameResolver RefNameResolver, parentIsExternal bool) bool {
-	if s == nil || !isExternalRef(s.Ref, parentIsExternal) {
+	if s == nil || !isExternalRef(s.Ref, parentIsExternal) || s.RefPath() == nil {
 		return false
 	}
 
@@ -161,7 +163,7 @@ func (doc *T) addSchemaToSpec(s *SchemaRef, refNameResolver RefNameResolver, par
 }
 
 func (doc *T) addParameterToSpec(p *ParameterRef, refNameResolver RefNameResolver, parentIsExternal bool) bool {
-	if p == nil || !isExternalRef(p.Ref, parentIsExternal) {
+	if p == nil || !isExternalRef(p.Ref, parentIsExternal) || p.RefPath() == nil {
 		return false
 	}
 	name := refNameResolver(doc, p)
@@ -184,7 +186,7 @@ func (doc *T) addParameterToSpec(p *ParameterRef, refNameResolver RefNameResolve
 }
 
 func (doc *T) addHeaderToSpec(h *HeaderRef, refNameResolver RefNameResolver, parentIsExternal bool) bool {
-	if h == nil || !isExternalRef(h.Ref, parentIsExternal) {
+	if h == nil || !isExternalRef(h.Ref, parentIsExternal) || h.RefPath() == nil {
 		return false
 	}
 	name := refNameResolver(doc, h)
@@ -207,7 +209,7 @@ func (doc *T) addHeaderToSpec(h *HeaderRef, refNameResolver RefNameResolver, par
 }
 
 func (doc *T) addRequestBodyToSpec(r *RequestBodyRef, refNameResolver RefNameResolver, parentIsExternal bool) bool {
-	if r == nil || !isExternalRef(r.Ref, parentIsExternal) {
+	if r == nil || !isExternalRef(r.Ref, parentIsExternal) || r.RefPath() == nil {
 		return false
 	}
 	name := refNameResolver(doc, r)
@@ -230,7 +232,7 @@ func (doc *T) addRequestBodyToSpec(r *RequestBodyRef, refNameResolver RefNameRes
 }
 
 func (doc *T) addResponseToSpec(r *ResponseRef, refNameResolver RefNameResolver, parentIsExternal bool) bool {
-	if r == nil || !isExternalRef(r.Ref, parentIsExternal) {
+	if r == nil || !isExternalRef(r.Ref, parentIsExternal) || r.RefPath() == nil {
 		return false
 	}
 	name := refNameResolver(doc, r)
@@ -253,7 +255,7 @@ func (doc *T) addResponseToSpec(r *ResponseRef, refNameResolver RefNameResolver,
 }
 
 func (doc *T) addSecuritySchemeToSpec(ss *SecuritySchemeRef, refNameResolver RefNameResolver, parentIsExternal bool) {
-	if ss == nil || !isExternalRef(ss.Ref, parentIsExternal) {
+	if ss == nil || !isExternalRef(ss.Ref, parentIsExternal) || ss.RefPath() == nil {
 		return
 	}
 	name := refNameResolver(doc, ss)
@@ -276,7 +278,7 @@ func (doc *T) addSecuritySchemeToSpec(ss *SecuritySchemeRef, refNameResolver Ref
 }
 
 func (doc *T) addExampleToSpec(e *ExampleRef, refNameResolver RefNameResolver, parentIsExternal bool) {
-	if e == nil || !isExternalRef(e.Ref, parentIsExternal) {
+	if e == nil || !isExternalRef(e.Ref, parentIsExternal) || e.RefPath() == nil {
 		return
 	}
 	name := refNameResolver(doc, e)
@@ -299,7 +301,7 @@ func (doc *T) addExampleToSpec(e *ExampleRef, refNameResolver RefNameResolver, p
 }
 
 func (doc *T) addLinkToSpec(l *LinkRef, refNameResolver RefNameResolver, parentIsExternal bool) {
-	if l == nil || !isExternalRef(l.Ref, parentIsExternal) {
+	if l == nil || !isExternalRef(l.Ref, parentIsExternal) || l.RefPath() == nil {
 		return
 	}
 	name := refNameResolver(doc, l)
@@ -322,7 +324,7 @@ func (doc *T) addLinkToSpec(l *LinkRef, refNameResolver RefNameResolver, parentI
 }
 
 func (doc *T) addCallbackToSpec(c *CallbackRef, refNameResolver RefNameResolver, parentIsExternal bool) bool {
-	if c == nil || !isExternalRef(c.Ref, parentIsExternal) {
+	if c == nil || !isExternalRef(c.Ref, parentIsExternal) || c.RefPath() == nil {
 		return false
 	}
 	name := refNameResolver(doc, c)
